@@ -66,6 +66,8 @@ type qScenario struct {
 	Msgs     []qMsg `json:"messages"`
 	// restart the queue (Close, then a new Queue on the same directory) once this many attempts have been made
 	RestartAfter []int `json:"restart_after,omitempty"`
+	// limit of attempts running at the same time (0: 16)
+	Parallelism int `json:"max_parallelism,omitempty"`
 }
 
 // ---- history ---------------------------------------------------------------------------------
@@ -364,7 +366,11 @@ func qNewQueue(dir string, sc *qScenario, tgt module.DeliveryTarget, bounce modu
 		q.dsnPipeline = bounce
 	}
 	q.Log = log.Logger{Out: log.NopOutput{}}
-	if err := q.start(16); err != nil {
+	par := sc.Parallelism
+	if par == 0 {
+		par = 16
+	}
+	if err := q.start(par); err != nil {
 		panic(err)
 	}
 	return q
